@@ -16,13 +16,18 @@ case = {'side': 'client'|'server', 'api': 'data'|'message', 'lens': [int,...],
            rst = Stream.reset_nowait() on one of NVICTIMS extra open streams of the connection (another
                  call being cancelled); rp = the transport resumes and pauses again from inside the first
                  write() that follows (the flush of Connection.resume_writing, if h2 has something queued)
-The wiring copies harness.wire.ClientEnd / ServerEnd (which create their peer with auto_ack=True).
+The rig reaches grpclib only through public names: the connection is made by intercepting the event loop's
+create_connection / create_server (what Channel / Server.start call), the protocol-level stream and the h2
+connection are found BY TYPE among the attributes of the public objects, and what cannot be found degrades to
+"not observed" (never to a crash).
 """
 import asyncio
 
+from h2.connection import H2Connection
 from h2.events import DataReceived, RequestReceived
 from h2.settings import SettingCodes
 
+import grpclib.protocol
 from grpclib.client import Channel, StreamStreamMethod
 from grpclib.server import Server
 
@@ -37,6 +42,45 @@ LIVELOCK_LIMIT = 1000        # a legitimate segment has at most len/16384 + 2 it
 
 class Livelock(Exception):
     pass
+
+
+def find_by_type(obj, cls):
+    """the attribute of obj (however it is called) that holds an instance of cls"""
+    seen = []
+    try:
+        seen = list(vars(obj).values())
+    except TypeError:
+        pass
+    for name in getattr(type(obj), '__slots__', ()):
+        if hasattr(obj, name):
+            seen.append(getattr(obj, name))
+    for v in seen:
+        if isinstance(v, cls):
+            return v
+    return None
+
+
+def pstream_of(hi):
+    """the grpclib.protocol.Stream behind a client/server Stream"""
+    if isinstance(hi, grpclib.protocol.Stream):
+        return hi
+    ps = find_by_type(hi, grpclib.protocol.Stream)
+    if ps is None:
+        raise RuntimeError('no protocol-level stream found behind %r' % type(hi).__name__)
+    return ps
+
+
+class _FakeServer:
+    sockets = ()
+
+    def close(self):
+        pass
+
+    async def wait_closed(self):
+        pass
+
+    def is_serving(self):
+        return True
 
 
 class PTransport(MemTransport):
@@ -83,7 +127,9 @@ class Rig:
 
     # ---- wiring ----
     def _guard(self, proto):
-        h2c = proto.connection._connection
+        h2c = find_by_type(proto.connection, H2Connection)
+        if h2c is None:
+            raise RuntimeError('no h2 connection found behind the protocol')
         orig = h2c.local_flow_control_window
 
         def guarded(stream_id):
@@ -116,54 +162,57 @@ class Rig:
         grant = max(0, self.case['cw0'] - 65535)
         loop = self.loop
         if self.side == 'client':
-            self.channel = Channel(codec=RawCodec())
             self.peer = Peer(client_side=False, auto_ack=False)
 
-            async def create():
-                proto = self.channel._protocol_factory()
+            async def create_connection(protocol_factory, *a, **kw):
+                proto = protocol_factory()
                 tr = PTransport(proto, loop, on_write=self.peer.receive)
                 self.peer.attach(tr)
                 self.peer.start()
                 proto.connection_made(tr)
                 self.peer.flush()
                 self.proto, self.transport = proto, tr
-                return proto
-            self.channel._create_connection = create
+                return tr, proto
+            loop.create_connection = create_connection          # what Channel calls to connect
+            loop.create_unix_connection = create_connection
+            self.channel = Channel('127.0.0.1', 50051, codec=RawCodec())
             method = StreamStreamMethod(self.channel, '/v.S/M', bytes, bytes)
 
             async def burner():
                 async with method.open() as s:
                     await s.send_request()
-                    await s._stream.send_data(b'\x55' * burn)
+                    await pstream_of(s).send_data(b'\x55' * burn)
                     self.burned = True
                     await self.park.wait()
 
             async def victim():
                 async with method.open() as s:
                     await s.send_request()
-                    self.victims.append(s._stream)
+                    self.victims.append(pstream_of(s))
                     await self.park.wait()
 
             async def sender(i):
                 async with method.open() as s:
                     await s.send_request()
-                    self.sid_index[s._stream.id] = i
-                    await self._sender_body(i, s._stream, s)
+                    ps = pstream_of(s)
+                    self.sid_index[ps.id] = i
+                    await self._sender_body(i, ps, s)
             self.burned = burn == 0
             self.aux = []
+            # the first call opens the connection: the burner if there is one, else the first victim
+            first = 1
             if burn:
                 self.aux.append(loop.create_task(burner()))
-                loop.run_quiet(1.0)
+                first = 0
             else:
-                t = loop.create_task(self.channel.__connect__())
-                loop.run_quiet(1.0)
-                t.result()
+                self.aux.append(loop.create_task(victim()))
+            loop.run_quiet(1.0)
             self._guard(self.proto)
             self.peer.settings({SettingCodes.INITIAL_WINDOW_SIZE: self.case['iw0'],
                                 SettingCodes.MAX_FRAME_SIZE: self.case['mf0']})
             if grant:
                 self.peer.window_update(0, grant)
-            for _ in range(NVICTIMS):
+            for _ in range(NVICTIMS - first):
                 self.aux.append(loop.create_task(victim()))
             for i in range(self.n):
                 self.aux.append(loop.create_task(sender(i)))
@@ -175,16 +224,25 @@ class Rig:
                 kind = kinds.pop(0)
                 await stream.send_initial_metadata()
                 if kind == 'burn':
-                    await stream._stream.send_data(b'\x55' * burn)
+                    await pstream_of(stream).send_data(b'\x55' * burn)
                     self.burned = True
                     await self.park.wait()
                 elif kind == 'victim':
-                    self.victims.append(stream._stream)
+                    self.victims.append(pstream_of(stream))
                     await self.park.wait()
                 else:
-                    await self._sender_body(kind, stream._stream, stream)
+                    await self._sender_body(kind, pstream_of(stream), stream)
+            factory = []
+
+            async def create_server(protocol_factory, *a, **kw):      # what Server.start calls to listen
+                factory.append(protocol_factory)
+                return _FakeServer()
+            loop.create_server = create_server
+            loop.create_unix_server = create_server
             self.server = Server([Service('v.S', {'M': (handler, 'SS')})], codec=RawCodec())
-            proto = self.server._protocol_factory()
+            self.aux = [loop.create_task(self.server.start('127.0.0.1', 50051))]
+            loop.run_quiet(1.0)
+            proto = factory[0]()
             self.peer = Peer(client_side=True, auto_ack=False)
             tr = PTransport(proto, loop, on_write=self.peer.receive)
             self.peer.attach(tr)
@@ -230,14 +288,28 @@ class Rig:
             elif self.finished[i]:
                 out.append('D')
             else:
+                # which Event the task waits on (asyncio internals; 'B' = blocked, not observable)
                 fut = getattr(t, '_fut_waiter', None)
-                if fut is not None and fut in self.streams[i].window_updated._waiters:
+                wu = getattr(getattr(self.streams[i], 'window_updated', None), '_waiters', None)
+                wr = getattr(getattr(self.conn, 'write_ready', None), '_waiters', None)
+                if fut is None or wu is None or wr is None:
+                    out.append('B')
+                elif fut in wu:
                     out.append('U')
-                elif fut is not None and fut in self.conn.write_ready._waiters:
+                elif fut in wr:
                     out.append('W')
                 else:
                     out.append('?')
         return ''.join(out)
+
+    def queued(self):
+        """does h2 hold outbound bytes not yet handed to the transport (None = not observable)"""
+        buf = getattr(self.h2c, '_data_to_send', None)
+        return None if buf is None else bool(buf)
+
+    def write_ready(self):
+        ev = getattr(self.conn, 'write_ready', None)
+        return None if ev is None else ev.is_set()
 
     def windows(self):
         h = self.h2c
@@ -344,9 +416,9 @@ def run_case(case):
                 cw, sws, mf = rig.windows()
                 obs['records'].append({
                     'chunks': pending_frames, 'pcs': rig.pcs(), 'cw': cw, 'sws': sws, 'mf': mf,
-                    'wr': rig.conn.write_ready.is_set(), 'paused': rig.transport.paused, 'op': k,
+                    'wr': rig.write_ready(), 'paused': rig.transport.paused, 'op': k,
                     'paused_before': paused_before, 'outside': outside,
-                    'hq': bool(rig.h2c._data_to_send)})
+                    'hq': rig.queued()})
                 pending_frames = []
                 outside = 0
         obs['violations'] = [type(v).__name__ for v in peer.violations]
